@@ -193,6 +193,64 @@ MUTATOR_METHODS = {"append", "insert", "pop", "remove", "clear", "extend", "upda
                    "__setitem__", "__delitem__"}
 
 
+_CG_CACHE: dict = {}
+
+
+def _cg(m):
+    from ..callgraph import CallGraph
+
+    g = _CG_CACHE.get(id(m))
+    if g is None or g.m is not m:
+        _CG_CACHE.clear()
+        g = _CG_CACHE[id(m)] = CallGraph(m)
+    return g
+
+
+def _runs_leaf_checks(r, f, call) -> bool:
+    """Does this call run a *local* type-checking predicate of f (a nested def, or a local aliasing one)
+    that goes through a typechecker into `isinstance` and so into the array / PyTree __instancecheck__?"""
+    m = r.m
+    if not isinstance(call.func, ast.Name):
+        return False
+    cands = []
+    seen = set()
+    work = [call.func.id]
+    while work:
+        nm = work.pop()
+        if nm in seen:
+            continue
+        seen.add(nm)
+        if nm in f.nested:
+            cands.append(f.nested[nm])
+        for n_ in walk_scope(f.node):
+            if isinstance(n_, (ast.FunctionDef,)) and n_.name == nm and id(n_) in m.func_of_node:
+                cands.append(m.func_of_node[id(n_)])
+            if isinstance(n_, ast.Assign) and isinstance(n_.value, ast.Name) and any(isinstance(t, ast.Name) and t.id == nm for t in n_.targets):
+                work.append(n_.value.id)
+    if not cands:
+        return False
+    # definite only: the predicate (or a local function it calls) is, or calls, a function wrapped by a
+    # typechecker decorator (`@typechecked def accepts_leaftype(x: <leaf type>)`); a mere call-out to an
+    # unknown callable is not taken for a leaf check
+    def is_typechecked(g_):
+        return any("typechecked" in norm(d) or "typechecker" in norm(d) or "beartype" in norm(d) for d in g_.decorators)
+
+    seen_f = set()
+    work_f = list(cands)
+    while work_f:
+        g_ = work_f.pop()
+        if g_.qualname in seen_f:
+            continue
+        seen_f.add(g_.qualname)
+        if is_typechecked(g_):
+            return True
+        for c_ in m.calls_in(g_):
+            t_ = m.resolve_call(g_, c_)
+            if t_.kind == "func" and (t_.target.parent is f or t_.target.parent is g_):
+                work_f.append(t_.target)
+    return False
+
+
 def _mutators(f, live, r, assumed=None):
     """Calls in f that receive a live memo (other than copies and the restore call), plus direct
     stores into a live memo.  A call of an internal helper counts when the helper (transitively)
@@ -211,6 +269,11 @@ def _mutators(f, live, r, assumed=None):
             names = [a.id for a in n.args if isinstance(a, ast.Name)] + [
                 k.value.id for k in n.keywords if isinstance(k.value, ast.Name)
             ]
+            if not any(x in live for x in names) and _runs_leaf_checks(r, f, n):
+                # a local predicate / internal function that runs leaf type checks (typeguard -> isinstance ->
+                # array __instancecheck__): it binds axes in the current context although no memo is handed to it
+                out.append(n)
+                continue
             if any(x in live for x in names):
                 t = r.m.resolve_call(f, n)
                 if dotted_of(n.func) in PURE_BUILTINS:
@@ -522,6 +585,22 @@ def _rollback_typestate(m, r, f, g, muts, restore_calls):
             if sm != "never":
                 helper_restores[id(c_)] = sm
     unmodelled = [c_ for c_ in f_calls(f) if helper_restores.get(id(c_)) == "sometimes"]
+    # a local function / lambda of f that restores and is handed to something else (ExitStack.callback,
+    # atexit-style registration, functools.partial ...) runs at a point the typestate does not see
+    for nf in f.nested.values():
+        if _contains_restore(m, r, nf):
+            called = [c_ for c_ in f_calls(f) if isinstance(c_.func, ast.Name) and c_.func.id == nf.name]
+            referenced = [x for x in walk_scope(f.node) if isinstance(x, ast.Name) and x.id == nf.name and isinstance(x.ctx, ast.Load)
+                          and not any(x is c_.func for c_ in called)]
+            if referenced:
+                unmodelled.append(nf.node)
+    for lam in [x for x in walk_scope(f.node) if isinstance(x, ast.Lambda)]:
+        if any(isinstance(c_, ast.Call) and r.role_of_call(f, c_) == "set_shape_memo" for c_ in ast.walk(lam)):
+            unmodelled.append(lam)
+    for c_ in f_calls(f):
+        # functools.partial(set_shape_memo, ...) and friends: the restore primitive passed as a value
+        if any(isinstance(a_, ast.Name) and r.role_of_call(f, ast.Call(func=a_, args=[], keywords=[])) == "set_shape_memo" for a_ in c_.args):
+            unmodelled.append(c_)
     cm_cache = {}
     quiet_exit = set()
     for n in g.live_nodes():
